@@ -107,6 +107,11 @@ class Engine:
 
     def write_field(self, st, obj_ref, cls, attr, value):
         key, kind, fcls = self.schema.field(cls, attr)
+        if value.k == "func":
+            # function-valued attribute: stored as an opaque token (reads of the statically known ones go through
+            # Schema.static_field)
+            import zlib
+            value = SV("val", Val.VOpaque(z3.IntVal(zlib.crc32(value.x[0].qual.encode()))))
         if kind == "val":
             st.heap[key] = z3.Store(self.field_array(st, key), obj_ref, to_val(value))
         elif kind == "set":
@@ -582,15 +587,15 @@ class Engine:
         """obj.attr = val where attr is an _IndexedAttribute: execute the *real*
         _IndexedAttribute.Descriptor.__set__ from util.py, specialised to this instantiation
         (parent_getter := the class-body lambda, attribute_name := '_' + attr)."""
+        me = SV("descriptor", x=dict(parent_getter=SV("func", x=(desc, {})), attribute_name="_" + attr,
+                                     name=attr))
         c = self.reg.find_descriptor_contract(ci, attr)
         if c is not None and self.cur_contract is not c:
-            self.call_by_contract(c, [obj, val], {}, st)
+            self.call_by_contract(c, [me, obj, val], {}, st)
             return
         fi = self.prog.find_function("util.py::_IndexedAttribute.Descriptor.__set__")
         if fi is None:
             raise Unsupported("_IndexedAttribute.Descriptor.__set__ not found")
-        me = SV("descriptor", x=dict(parent_getter=SV("func", x=(desc, {})), attribute_name="_" + attr,
-                                     name=attr))
         self.call_function(fi, [me, obj, val], {}, st, self_cls=None, force_inline=True)
 
     def set_item(self, cont, slc, val, st):
@@ -633,6 +638,17 @@ class Engine:
         raise Unsupported("item assignment on %s" % cont.k)
 
     def delete(self, tgt, st):
+        if isinstance(tgt, ast.Subscript) and isinstance(tgt.slice, ast.Slice):
+            cont = self.eval(tgt.value, st)
+            sl = tgt.slice
+            if cont.k in ("list", "bytes") and sl.upper is None and sl.step is None and sl.lower is not None:
+                # del xs[a:]  -> keep the first clamp(a) elements
+                n = cont.x
+                a_ = self.as_int(self.eval(sl.lower, st), st)
+                k = z3.If(a_ < 0, z3.If(a_ + n < 0, 0, a_ + n), z3.If(a_ > n, n, a_))
+                cont.wb(st, SV(cont.k, cont.t, x=k, cls=cont.cls))
+                return
+            raise Unsupported("del with this slice form")
         if isinstance(tgt, ast.Subscript):
             cont = self.eval(tgt.value, st)
             if cont.k == "dict":
@@ -1289,7 +1305,10 @@ class Engine:
         if isinstance(node.slice, ast.Slice):
             return self.slice_(cont, node.slice, st)
         if cont.k == "builtin" or cont.k == "cls":
-            return cont        # typing subscripts: LazyIntervalTree[int, ByteBlock] etc.
+            # typing subscripts: LazyIntervalTree[int, ByteBlock] etc.; remember the element type argument
+            if cont.k == "cls" and cont.x.qual == "LazyIntervalTree":
+                self._pending_type_arg = ast.unparse(node.slice).split(",")[-1].strip().strip(")")
+            return cont
         idx = self.eval(node.slice, st)
         return self.get_item(cont, idx, st)
 
@@ -1660,7 +1679,15 @@ class Engine:
             return sp
         if ci.is_enum:
             return self.schema.enum_from_value(self, ci, args[0], st)
-        raise Unsupported("construction of %s without contract" % ci.qual)
+        init = ci.lookup("__init__")
+        if init is None:
+            raise Unsupported("construction of %s: no __init__ in the package" % ci.qual)
+        # generic construction: a fresh object of that class, then the real __init__ (contract or inlined)
+        r = self.fresh_object(st, ci.qual)
+        obj = SV("ref", r, cls=ci.qual, x=getattr(self, "_pending_type_arg", None))
+        self._pending_type_arg = None
+        self.call_function(init, [obj] + args, kwargs, st, self_cls=ci.qual)
+        return obj
 
     # ------------------------------------------------------------------ calls by contract
     def call_by_contract(self, c, args, kwargs, st, fi=None):
